@@ -53,7 +53,7 @@ def _method(name):
         if name == "fill_into" and len(args) == 2 and isinstance(args[0], Sink):
             args[0].fill(("filled_into", _plain(args[1])))
             return None
-        if name == "run" and len(args) == 1 and isinstance(args[0], list):
+        if name == "run" and len(args) == 1 and hasattr(args[0], "__next__"):
             return [("ran", _plain(v)) for v in args[0]]
         return [(name + "-result", _plain(args))]
     method.__name__ = name
@@ -259,6 +259,14 @@ def _guard(thunk, el):
         return ("exc", type(e).__name__, _log(el))
 
 
+FUNCTIONS = {"@gen_function": gen_function, "@list_function": list_function}
+
+
+def resolve(args):
+    """Method-name arguments as passed to lena: "@name" stands for one of the functions above."""
+    return {k: FUNCTIONS.get(v, v) if isinstance(v, str) else v for k, v in args.items()}
+
+
 def construct(adapter, el, args):
     """("ok", adapter object) or ("exc", exception type name)."""
     cls = getattr(lena.core, adapter)
@@ -279,7 +287,7 @@ def exercise(adapter, A, el):
     if adapter == "SourceEl":
         return _guard(lambda: _consume(A()), el)
     if adapter == "Run":
-        return _guard(lambda: _consume(A.run(list(CANNED_FLOW))), el)
+        return _guard(lambda: _consume(A.run(iter(list(CANNED_FLOW)))), el)
     if adapter == "FillCompute":
         return _guard(lambda: [_plain_result(A.fill(7)), _plain_result(A.fill(8)),
                                _consume(A.compute())], el)
@@ -303,7 +311,7 @@ def direct(adapter, rule, twin, args):
         f = twin if rule == "callable" else getattr(twin, args["call"])
         return _guard(lambda: _consume(f()), twin)
     if adapter == "Run":
-        flow = list(CANNED_FLOW)
+        flow = iter(list(CANNED_FLOW))
         if rule == "run":
             return _guard(lambda: _consume(twin.run(flow)), twin)
         if rule == "named":
@@ -362,6 +370,7 @@ def arg_lists(adapter, names):
 def judge(adapter, elspec, args):
     """Judge one construction. Returns a dict:
     verdict "holds" | "construct" | "meaning"; readings; observed; expected (for the report)."""
+    args = resolve(args)
     readings = expected(adapter, make(elspec), args)
     el = make(elspec)
     built = construct(adapter, el, args)
